@@ -131,10 +131,15 @@ def run_case_lines(spec):
 
 
 def _setup_lines():
-    from vf import linemon
-    import mpservice.mpserver._server as m
+    # optional observer: if the module has been renamed/moved the family still runs, with lock/blocking preemption points only
+    try:
+        import importlib
 
-    linemon.install([m.__file__])
+        from vf import linemon
+
+        linemon.install([importlib.import_module('mpservice.mpserver._server').__file__])
+    except Exception:
+        pass
     _warm()
 
 
